@@ -128,7 +128,7 @@ _E2E_NOTE = 'Trusted: Coq kernel + vm_compute; the end-to-end harness (scripted 
 def _broker(runs):
     return dict(name='broker', corr='Broker', runs=runs, par=8)
 
-PROPS['C02'] = dict(theorems=['acked_implies_stored', 'nothing_skipped', 'stored_entry_delivered', 'delivered_only_to_recipients', 'qos_recipient_is_written'],
+PROPS['C02'] = dict(theorems=['acked_implies_stored', 'nothing_skipped', 'stored_entry_delivered', 'delivered_only_to_recipients', 'qos_recipient_is_written', 'acknowledged_publish_reaches_subscribers'],
     level_text="Theorems (node model): the acknowledgement is emitted only after every destination log accepted the message; the log consumer hands every stored entry, offset 0 included, to the writer; a stored entry is written with topic and payload intact to exactly the recipients in the registry. Tied to the Go code by end-to-end scripts on a real node with a real message log (publishers, subscribers, QoS mix, retained clears, a subscriber whose writes fail), compared step by step with the model. Segment rolls and truncation are covered by C15's consumer model and the thorough tier's 520-publish runs.",
     level_note=_E2E_NOTE,
     families=[_broker([('pipeline', 40, 400)]), dict(name='crash', corr='Consumer', runs=[('edges', 16, 160)], par=8)], rule='pipeline: 1-3 publishers and subscribers, 1-12 publishes (QoS mix) from the very first log entry on; thorough: every 41st case 520 publishes (segment roll).')
@@ -148,11 +148,11 @@ PROPS['C12'] = dict(theorems=['teardown_spares_new', 'teardown_keeps_records', '
     level_text='Theorems (node model): tearing down a displaced session changes no session record, publishes no will and closes only its own connection. A CONNECT whose identifier is in use (fresh session id, well-formed strings, node clock above the replaced record stamp, identifier resolving to at most one session before) tombstones the old record, stores the new one, registers the session, writes CONNACK 0, and the identifier resolves to exactly the new session on the serving node and on every node that merges the two broadcasts from an agreeing view (composition with C09); a PINGREQ on a session whose identifier resolves elsewhere or to nothing is answered by closing and nothing else, the live one gets PINGRESP with the state unchanged. Validated end-to-end on 1-3 nodes (chains of connections, gossip orders incl. tombstone-before-creation, same identifier in another mount point).',
     level_note=_E2E_NOTE,
     families=[_broker([('takeover', 40, 500), ('takeover3', 32, 240)])], rule='takeover: chains of 2-3 connections sharing a client identifier on 1-2 nodes, old sessions ping/subscribe/disconnect/lose the connection, gossip in between; a connection with the same identifier in another mount point.')
-PROPS['C13'] = dict(theorems=['will_on_unclean_end', 'no_will_after_disconnect', 'no_will_without_lwt', 'will_stored_once_per_destination', 'host_failure_publishes_wills'],
+PROPS['C13'] = dict(theorems=['will_on_unclean_end', 'no_will_after_disconnect', 'no_will_without_lwt', 'will_stored_once_per_destination', 'host_failure_publishes_wills', 'host_failure_is_notice_then_reap', 'noticing_publishes_wills', 'noticing_removes_no_record'],
     level_text="Theorems (node model): an unclean end hands exactly the will, under the session's mount point, to the publish path once; after DISCONNECT, for a displaced session, and without a will nothing is published. The will is stored at most once per node, at every node hosting a matching subscription known to the publishing node when nothing fails, and at no other; on failure of the hosting node the survivor that notices appends exactly one copy of the will of every session of the failed peer it lists, under that session's mount point, and nothing else. Host failure is also validated end-to-end on 2-3 nodes with watchers on every node and in another mount point.",
     level_note=_E2E_NOTE,
     families=[_broker([('wills', 24, 300)])], rule='wills: will QoS x retain x topic (empty levels, other tenant name) x ending (EOF, deadline, protocol error, DISCONNECT, host failure with and without prior DISCONNECT) x hosting node, watchers on every node and in another mount point.')
-PROPS['C14'] = dict(theorems=['append_exactly_once', 'remote_delivers_local_only'],
+PROPS['C14'] = dict(theorems=['append_exactly_once', 'remote_delivers_local_only', 'other_nodes_deliver_exactly_once', 'subscriber_on_any_destination_is_reached'],
     level_text='Theorems (node model): Distribute appends the message at most once per node, exactly once per destination when it reports success, to no node outside the destination set, visiting every destination whatever fails; each node writes a log entry only to registered recipients. Tied to the Go code by 2-3 node scripts over in-process gRPC with every subset of other nodes unreachable.',
     level_note=_E2E_NOTE,
     families=[_broker([('cluster', 40, 500)])], rule='cluster: 2-3 nodes, 0-2 subscribers per node with filters t/#, t/+, u, publisher on any node, every subset of other nodes unreachable, topics t/a, u, v.')
